@@ -101,7 +101,7 @@ SPECS["C01"] = {
         {"name": "VerifC01_SequentialReuse", "native": False, "quick": {"params": [0, 1, 2], "flags": ["-preempt", "2"]}, "thorough": {"params": [0, 1, 2, 3], "flags": ["-preempt", "3"]}},
         {"name": "VerifC01_AdapterCorrelation", "native": False, "quick": {"params": [0, 1, 2], "flags": ["-preempt", "1"]},
          "thorough": {"params": [0, 1, 2, 3], "flags": ["-preempt", "2", "-par", "4"], "procs": 4}, "flags": [],
-         "expect_reach": ["end", "with-deadline", "timed-out"]},
+         "expect_reach": ["end", "with-deadline", "timed-out", "foreign-clones"]},
     ])],
     "level_text": "(a) One-step contracts of the real registry from an ARBITRARY pre-state (the channels map is an unknown map of any size; a registered channel is empty or full): Register / Unregister / Execute with an arbitrary op-id string (real strconv.ParseUint on symbolic bytes) store, remove or deliver to exactly the caller's own channel, refuse an in-flight duplicate, discard unknown ids, never overwrite a delivered frame, and leave every other registration untouched (probe key) - this covers any number of concurrent callers and any history because each step is atomic under the registry mutex. (b) Bounded symbolic execution with threads of the real fAdapterTransport (Open/readLoop/TFramedTransport/Request/registry) over a harness pipe: 2 concurrent callers (one optionally with a deadline), an adversarial peer sending k frames in any order / multiplicity / with unknown ids: a caller succeeds only with its own frame, caller 2 always gets its own, failures are only own timeouts, no registration is left. (c) one step of fNatsTransport.handler from an arbitrary registry with independent symbolic op ids in the frame and in the reply-subject suffix: a frame reaches the request whose op id it carries and never the request that merely owns the reply subject; a 503 status message is routed by the subject suffix. (d) two requests issued one after the other with 1..3 copies of the first response arriving at any time: the later request completes only with its own frame. Outside: NATS Request under schedules (its body is the same Register / select / Unregister shape), HTTP, >2 callers in (b).",
     "level_note": "Trusted: go/ssa, gose interpreter and scheduler model, z3. " + SCHED_NOTE,
@@ -115,6 +115,7 @@ SPECS["C06"] = {
         {"name": "VerifC06_DispatchNeverBlocks", "native": False, "quick": {"params": [0], "bound": 3}, "thorough": {"params": [0], "bound": 4}, "expect_reach": ["end", "slot-full", "slot-empty", "unknown"]},
         {"name": "VerifC06_AdapterNoHOL", "native": False, "quick": {"params": [1, 2, 3, 4], "flags": ["-preempt", "1"], "procs": 2},
          "thorough": {"params": [3, 4, 5], "flags": ["-preempt", "2", "-par", "5"], "procs": 3}, "expect_reach": ["end", "triple-duplicate"]},
+        {"name": "VerifC06_NatsDuplicateContext", "native": False, "flags": ["-timer-preempt=false"], "quick": {"params": [0, 1], "flags": ["-preempt", "1"]}, "thorough": {"params": [0, 1], "flags": ["-preempt", "3"]}},
     ])],
     "level_text": "(a) One-step contract from an arbitrary registry state (unknown map, registered channel empty or full): Execute of any well-formed frame returns without blocking - for every state and frame, so no number of duplicates, unknown or late responses can stall the reader. (b) Bounded symbolic execution with threads of the real adapter transport: one caller without deadline, an adversarial prefix of k frames (own id xN, unknown ids), then a FRESH request whose response must still be delivered (a wedged reader shows up as a deadlock). Outside: NATS (its handler calls the same Execute/dispatch), more than k frames in (b).",
     "level_note": "Trusted: go/ssa, gose interpreter and scheduler model, z3. " + SCHED_NOTE,
@@ -178,6 +179,9 @@ SPECS["C07"] = {
         {"name": "VerifC07_TwoSubscribers", "native": False, "quick": {"params": [0, 1], "flags": ["-preempt", "1"]}, "thorough": {"params": [0, 1], "flags": ["-preempt", "2", "-par", "4"]},
          "expect_reach": ["end", "builder-made"]},
         {"name": "VerifC07_ConcurrentPublish", "native": False, "quick": {"params": [0], "flags": ["-preempt", "1"]}, "thorough": {"params": [0], "flags": ["-preempt", "3"]}},
+        {"name": "VerifC07_Backlog", "native": False, "quick": {"params": [0], "flags": ["-preempt", "1"]}, "thorough": {"params": [0], "flags": ["-preempt", "2"]}},
+        {"name": "VerifC07_Backlog", "native": False, "flags": ["-max-decisions", "4000"], "quick": {"params": [1], "flags": ["-preempt", "0"]}, "thorough": {"params": [1], "flags": ["-preempt", "0"]},
+         "expect_reach": ["end", "backlog-exceeds-queue"]},
         {"name": "VerifC07_StompSub", "native": False, "quick": {"params": [1, 2], "bound": 1, "flags": ["-preempt", "1"]},
          "thorough": {"params": [1, 2, 3], "bound": 2, "flags": ["-preempt", "1", "-par", "5"], "procs": 3},
          "expect_reach": ["end", "valid", "short-frame", "bad-header", "other-op", "handler-fails"]},
@@ -235,11 +239,13 @@ SPECS["C16"] = {
          "expect_reach": ["end", "value", "error", "added-later"]},
         {"name": "VerifC16_SharedSlice", "quick": {"params": [0]}, "thorough": {"params": [0]}, "expect_reach": ["end", "with-providers", "added-later"]},
         {"name": "VerifC16_ErrorOnly", "quick": {"params": [0]}, "thorough": {"params": [0]}},
+        {"name": "VerifC16_ProcessorAddMiddleware", "quick": {"params": [0]}, "thorough": {"params": [0]}, "expect_reach": ["end", "two-added"]},
     ])],
     "gen_groups": [
         {"program": "c02_basic", "pkg": "c02basic", "entries": [
             {"name": "VerifC16_GeneratedWiring", "flags": ["-max-decisions", "3000"], "quick": {"params": [0, 1, 2, 3], "procs": 4}, "thorough": {"params": [0, 1, 2, 3], "procs": 4},
              "expect_reach": ["end", "client", "processor", "publisher", "subscriber"]},
+            {"name": "VerifC16_GeneratedArgs", "flags": ["-max-decisions", "3000"], "quick": {"params": [0]}, "thorough": {"params": [0]}},
             {"name": "VerifC16_GeneratedSubscribers", "flags": ["-max-decisions", "3000"], "quick": {"params": [0]}, "thorough": {"params": [0]}, "expect_reach": ["end", "spare-capacity"]},
         ]},
     ],
@@ -254,6 +260,7 @@ SPECS["C18"] = {
     "groups": [dict(PARSER, entries=[
         {"name": "VerifC18_Fields", "native": False, "quick": {"params": [0, 1, 2, 3, 4], "bound": 0, "procs": 5}, "thorough": {"params": list(range(20)), "bound": 0, "procs": 10, "timeout": 5000}, "expect_reach": ["end", "must-fail", "must-pass", "unspecified"]},
         {"name": "VerifC18_FieldsNested", "native": False, "tiers": ["thorough"], "thorough": {"params": [0, 1, 2, 3, 4], "bound": 1, "procs": 5, "timeout": 5000}, "expect_reach": ["end", "must-fail", "must-pass"]},
+        {"name": "VerifC18_FieldsWide", "native": False, "tiers": ["thorough"], "thorough": {"params": [0, 1, 2, 3, 4], "bound": 0, "procs": 5, "timeout": 5000}, "expect_reach": ["end", "must-fail", "must-pass"]},
         {"name": "VerifC18_TypedefShapes", "native": False, "quick": {"params": [0, 1, 2, 3], "bound": 0, "procs": 2}, "thorough": {"params": [0, 1, 2, 3], "bound": 0, "procs": 2}, "expect_reach": ["end", "must-fail", "must-pass"]},
         {"name": "VerifC18_Services", "native": False, "quick": {"params": [0, 1, 2, 3, 4, 5], "bound": 0, "procs": 6}, "thorough": {"params": [0, 1, 2, 3, 4, 5], "bound": 0, "procs": 6, "flags": ["-par", "2"]}, "expect_reach": ["end", "must-fail", "must-pass", "unspecified"]},
         {"name": "VerifC18_AddedField", "native": False, "quick": {"params": [0, 1, 2], "bound": 0, "procs": 3}, "thorough": {"params": [0, 1, 2], "bound": 0, "procs": 3}, "expect_reach": ["end", "must-fail", "must-pass", "added-required"]},
@@ -326,7 +333,7 @@ SPECS["C03"] = {
             {"name": "VerifC03_VoidThrows", "quick": {"params": [0], "bound": 1}, "thorough": {"params": [0], "bound": 2}, "expect_reach": ["end", "void-ok", "void-declared-1", "void-declared-2"]},
             {"name": "VerifC03_PingFire", "quick": {"params": [0, 1], "bound": 1}, "thorough": {"params": [0, 1], "bound": 2}, "expect_reach": ["end", "ping", "fire"]},
             {"name": "VerifC03_ConcurrentCalls", "native": False, "flags": ["-preempt", "1"], "quick": {"params": [0]}, "thorough": {"params": [0], "flags": ["-preempt", "2"]}},
-            {"name": "VerifC03_Names", "quick": {"params": [0, 1, 2], "bound": 1}, "thorough": {"params": [0, 1, 2], "bound": 2}, "expect_reach": ["end", "out-of-order-ids"]},
+            {"name": "VerifC03_Names", "quick": {"params": [0, 1, 2, 3], "bound": 1}, "thorough": {"params": [0, 1, 2, 3], "bound": 2}, "expect_reach": ["end", "out-of-order-ids", "typedef-enum-return"]},
         ]},
         {"program": "c02_nested", "includes": ["c02_base"], "pkg": "c02nested", "entries": [
             {"name": "VerifC03_Inherited", "quick": {"params": [0], "bound": 1}, "thorough": {"params": [0], "bound": 1}, "expect_reach": ["end", "denied", "built"]},
